@@ -8,7 +8,10 @@ in the model and are mapped back to the bytes of the arrays that were saved).  T
 oracle hypotheses of the theorems (NPY round trip, zip = append-only association list with
 last-entry-wins) are checked on the files of every case.  The stored arrays are presented in every NumPy memory layout
 (family `layout`: C / Fortran order, transposed, strided, reversed, offset, read-only, unaligned, broadcast views; see
-`present`), every save runs under argguard.guarded and the loads of that family under argguard.fresh_result_probe."""
+`present`), every save runs under argguard.guarded and the loads of that family under argguard.fresh_result_probe.
+Family `object` (OBJECT HISTORIES, see `History` / `object_cases`): the operations of a history act on NAMED, LIVE Mineral objects
+(`new`, `save`, `load` INTO the object, `from_file` bound to a name, `edit` = what a caller does to the stored history between
+two saves); the model sees a save of such an object as the save of the state the object is in at that moment."""
 from __future__ import annotations
 
 import hashlib
@@ -232,6 +235,303 @@ def same_bits(a, b):
 
 
 # --------------------------------------------------------------------------
+# object histories.  The property says "saving A mineral": the mineral is an OBJECT with a life before the save.  It may have
+# been saved before (same file / other file / other postfix), loaded into from an archive, had snapshots replaced, edited in
+# place, appended, dropped, its lists reassigned, been copied or pickled.  Whatever happened, `save` has to write the snapshots
+# the object holds WHEN IT IS CALLED.  In the operations below "obj" names a live object of the history:
+#   {"op": "new", "obj": X, "mineral": M}                       X = Mineral in state M
+#   {"op": "save", "obj": X, file, postfix, "mineral": P}       X.save(...);  P = the state X is predicted to be in (model input)
+#   {"op": "load", "obj": X, file, postfix, "target_n": n}      X.load(...)   (the object is the target)
+#   {"op": "from_file", "obj": X, file, postfix}                X = Mineral.from_file(...)
+#   {"op": "edit", "obj": X, "kind": ...}                       the caller's change of the stored history (apply_edit)
+# `new` and `edit` are not operations of the archive model; VISIBLE = what the model is run on.
+# --------------------------------------------------------------------------
+VISIBLE = ("save", "load", "from_file")
+
+
+def visible(sc):
+    return [o for o in sc["ops"] if o["op"] in VISIBLE]
+
+
+def own(a):
+    """a private copy of an array with the same contents AND memory layout"""
+    a = np.asarray(a)
+    return rebuild(a, describe(a)) if a.dtype == np.float64 else np.array(a)
+
+
+def clone_M(M):
+    return {k: v for k, v in M.items() if k not in ("fractions", "orientations")} | {
+        nm: [own(a) for a in M[nm]] for nm in ("fractions", "orientations")}
+
+
+def live_state(m):
+    """the state a live Mineral is in now (arrays copied)"""
+    return {"phase": int(m.phase), "fabric": int(m.fabric), "regime": int(m.regime), "n_grains": int(m.n_grains),
+            "fractions": [np.array(a, order="C") for a in m.fractions], "orientations": [np.array(a, order="C") for a in m.orientations]}
+
+
+def _enum(pyd, field, v):
+    try:
+        return {"phase": pyd.MineralPhase, "fabric": pyd.MineralFabric, "regime": pyd.DeformationRegime}[field](v)
+    except ValueError:
+        return v
+
+
+def apply_edit(x, e, pyd=None):
+    """what the caller does between two saves, on a live Mineral (pyd given) or on the predicted state (a dict); returns the
+    object to go on with (`clone` replaces it)"""
+    if isinstance(x, dict):
+        get, put = x.__getitem__, x.__setitem__
+    else:
+        get, put = (lambda k: getattr(x, k)), (lambda k, v: setattr(x, k, v))
+    kind = e["kind"]
+    if kind == "none":
+        pass
+    elif kind == "set":                                 # m.fractions[i] = a
+        for it in e["items"]:
+            get(it["field"])[it["index"]] = own(it["value"])
+    elif kind == "inplace":                             # m.fractions[i][...] = a   /   m.orientations[i][g] = a[g]
+        for it in e["items"]:
+            lst, v = get(it["field"]), own(it["value"])
+            a = lst[it["index"]]
+            if not (isinstance(a, np.ndarray) and a.flags.writeable and a.shape == v.shape):
+                lst[it["index"]] = v                    # read-only storage: the caller can only replace it
+            elif it.get("grain") is None:
+                a[...] = v
+            else:
+                a[it["grain"]] = v[it["grain"]]
+    elif kind == "lists":                               # m.fractions = [...]; m.orientations = [...]
+        for nm in ("fractions", "orientations"):
+            if nm in e:
+                put(nm, [own(a) for a in e[nm]])
+        if e.get("n_grains") is not None:
+            put("n_grains", e["n_grains"])
+    elif kind == "append":                              # what update_orientations does with its result
+        for nm in ("fractions", "orientations"):
+            get(nm).extend(own(a) for a in e.get(nm, []))
+    elif kind == "truncate":
+        for nm in ("fractions", "orientations"):
+            del get(nm)[len(get(nm)) - e["count"]:]
+    elif kind == "meta":
+        for nm in ("phase", "fabric", "regime"):
+            if nm in e:
+                put(nm, e[nm] if pyd is None else _enum(pyd, nm, e[nm]))
+    elif kind == "clone":                               # the object goes through copy.deepcopy / pickle
+        if pyd is not None:
+            import copy
+            import pickle
+            x = copy.deepcopy(x) if e.get("via") == "deepcopy" else pickle.loads(pickle.dumps(x))
+    else:
+        raise ValueError(kind)
+    return x
+
+
+class History:
+    """builds an object history and keeps, next to it, the state every object and every archive entry is REQUIRED to be in by
+    the property (load restores what was saved, an edit does what it says): the input of the model"""
+
+    def __init__(self, rng):
+        self.rng, self.ops, self.objs, self.files = rng, [], {}, {}
+
+    def new(self, name, M):
+        self.ops.append({"op": "new", "obj": name, "mineral": M})
+        self.objs[name] = freeze(M)
+
+    def save(self, name, file, pf):
+        M = freeze(self.objs[name])
+        self.ops.append(dict(S(file, pf, M), obj=name))
+        if is_valid(M):
+            if pf is None:
+                for key in [q for q in self.files if q[0] == file]:
+                    del self.files[key]
+            self.files[(file, pf)] = M
+
+    def load(self, name, file, pf, label="load"):
+        self.ops.append(dict(L(file, pf, self.objs[name]["n_grains"]), obj=name, label=label))
+        self.objs[name] = freeze(self.files[(file, pf)])
+
+    def from_file(self, name, file, pf):
+        self.ops.append(dict(F(file, pf), obj=name))
+        self.objs[name] = freeze(self.files[(file, pf)])
+
+    def edit(self, name, label, **e):
+        e = dict(e, op="edit", obj=name, label=label)
+        self.ops.append(e)
+        self.objs[name] = apply_edit(self.objs[name], e)
+
+    def check(self, file, pf):
+        """read an entry back through both loaders"""
+        n = self.files[(file, pf)]["n_grains"] if (file, pf) in self.files else 3
+        self.ops += [F(file, pf), L(file, pf, other_n(self.rng, n))]
+
+    def check_all(self):
+        for file, pf in list(self.files):
+            self.check(file, pf)
+
+
+EDIT_LABELS = ["none", "load_same_count", "load_more", "load_fewer", "load_other_grain_count", "load_postfix_entry",
+               "load_own_earlier_save", "set_fraction", "set_orientation", "set_every_snapshot", "set_with_layout",
+               "inplace_fraction", "inplace_orientation_one_grain", "inplace_every_snapshot", "lists_same_count", "lists_longer",
+               "lists_shorter", "lists_other_grain_count", "append", "append_and_set_earlier", "truncate", "truncate_then_append",
+               "meta", "deepcopy_then_set", "pickle_then_inplace", "from_file_then_set", "corrupt_then_repaired"]
+
+
+def do_edit(h, X, label):
+    """one change (named by `label`) of the history stored on object X; returns the name of the object to go on with"""
+    rng, st = h.rng, h.objs[X]
+    n, k = st["n_grains"], len(st["fractions"])
+    i = int(rng.integers(0, k))
+
+    def donor(kk, nn, pf):
+        D, file = f"D{len(h.objs)}", f"d{len(h.ops)}.npz"
+        h.new(D, mk(rng, n=nn, k=kk))
+        h.save(D, file, pf)
+        return file, pf
+
+    def item(field, idx, grain=None, layout=None):
+        v = payload(rng, (n,) if field == "fractions" else (n, 3, 3))
+        return {"field": field, "index": idx, "grain": grain, "value": present(v, layout) if layout else v}
+
+    def snaps(kk, nn=n):
+        return {"fractions": [payload(rng, (nn,)) for _ in range(kk)], "orientations": [payload(rng, (nn, 3, 3)) for _ in range(kk)]}
+
+    if label == "none":
+        h.edit(X, label, kind="none")
+    elif label == "load_same_count":
+        h.load(X, *donor(k, n, None), label=label)
+    elif label == "load_more":
+        h.load(X, *donor(k + int(rng.integers(1, 4)), n, None), label=label)
+    elif label == "load_fewer":
+        h.load(X, *donor(max(1, k - 1), n, None), label=label)
+    elif label == "load_other_grain_count":
+        h.load(X, *donor(k, other_n(rng, n), None), label=label)
+    elif label == "load_postfix_entry":
+        h.load(X, *donor(k, n, distinct_postfixes(rng, 1)[0]), label=label)
+    elif label == "load_own_earlier_save":                  # edit, then back to what the object wrote itself
+        mine = [q for q, M in h.files.items()]
+        h.edit(X, "set_every_snapshot", kind="set", items=[item(f, j) for f in ("fractions", "orientations") for j in range(k)])
+        if mine:
+            h.load(X, *mine[int(rng.integers(0, len(mine)))], label=label)
+    elif label == "set_fraction":
+        h.edit(X, label, kind="set", items=[item("fractions", i)])
+    elif label == "set_orientation":
+        h.edit(X, label, kind="set", items=[item("orientations", i)])
+    elif label == "set_every_snapshot":
+        h.edit(X, label, kind="set", items=[item(f, j) for f in ("fractions", "orientations") for j in range(k)])
+    elif label == "set_with_layout":
+        h.edit(X, label, kind="set", items=[item(f, i, layout=LAYOUTS[int(rng.integers(0, len(LAYOUTS)))])
+                                            for f in ("fractions", "orientations")])
+    elif label == "inplace_fraction":
+        h.edit(X, label, kind="inplace", items=[item("fractions", i)])
+    elif label == "inplace_orientation_one_grain":
+        h.edit(X, label, kind="inplace", items=[item("orientations", i, grain=int(rng.integers(0, n)))])
+    elif label == "inplace_every_snapshot":
+        h.edit(X, label, kind="inplace", items=[item(f, j) for f in ("fractions", "orientations") for j in range(k)])
+    elif label == "lists_same_count":
+        h.edit(X, label, kind="lists", **snaps(k))
+    elif label == "lists_longer":
+        h.edit(X, label, kind="lists", **snaps(k + int(rng.integers(1, 4))))
+    elif label == "lists_shorter":
+        h.edit(X, label, kind="lists", **snaps(max(1, k - 1)))
+    elif label == "lists_other_grain_count":
+        nn = other_n(rng, n)
+        h.edit(X, label, kind="lists", n_grains=nn, **snaps(k, nn))
+    elif label == "append":
+        h.edit(X, label, kind="append", **snaps(int(rng.integers(1, 4))))
+    elif label == "append_and_set_earlier":
+        h.edit(X, "append", kind="append", **snaps(int(rng.integers(1, 3))))
+        h.edit(X, label, kind="set", items=[item("fractions", i), item("orientations", int(rng.integers(0, k)))])
+    elif label == "truncate":
+        if k == 1:
+            h.edit(X, "append", kind="append", **snaps(1))
+        h.edit(X, label, kind="truncate", count=1)
+    elif label == "truncate_then_append":               # same number of snapshots, another last one
+        c = int(rng.integers(1, k)) if k > 1 else 0
+        if c:
+            h.edit(X, "truncate", kind="truncate", count=c)
+        h.edit(X, label, kind="append", **snaps(max(c, 1)))
+    elif label == "meta":
+        h.edit(X, label, kind="meta", phase=1 - st["phase"], fabric=(st["fabric"] + 1) % 6, regime=(st["regime"] + 3) % 8)
+    elif label == "deepcopy_then_set":
+        h.edit(X, "clone_deepcopy", kind="clone", via="deepcopy")
+        h.edit(X, label, kind="set", items=[item("fractions", i), item("orientations", i)])
+    elif label == "pickle_then_inplace":
+        h.edit(X, "clone_pickle", kind="clone", via="pickle")
+        h.edit(X, label, kind="inplace", items=[item("fractions", i), item("orientations", i)])
+    elif label == "from_file_then_set":                 # go on with the object a loader made of an entry written earlier
+        mine = list(h.files)
+        if mine:
+            X = X + "'"
+            h.from_file(X, *mine[int(rng.integers(0, len(mine)))])
+            k = len(h.objs[X]["fractions"])
+            n = h.objs[X]["n_grains"]
+            i = int(rng.integers(0, k))
+        h.edit(X, label, kind="set", items=[item("fractions", i), item("orientations", i)])
+    elif label == "corrupt_then_repaired":              # a save that must be refused in between
+        extra = snaps(1)
+        h.edit(X, "append_fractions_only", kind="append", fractions=extra["fractions"])
+        h.save(X, "h.npz", "refused")
+        h.edit(X, label, kind="append", orientations=extra["orientations"])
+    else:
+        raise ValueError(label)
+    return X
+
+
+RESAVE = [("whole", "same file", "whole"), ("whole", "same file", "postfix"), ("postfix", "same file", "postfix"),
+          ("postfix", "same file", "same postfix"), ("postfix", "other file", "whole"), ("whole", "other file", "postfix")]
+
+
+def object_cases(rng, quick, family="object"):
+    """9. OBJECT HISTORIES: one Mineral object saved, then its stored history replaced / edited / grown / shrunk (every label of
+    EDIT_LABELS), then saved again (same file / other file, whole file / postfix / the same postfix), every entry that has to
+    exist read back through both loaders after each save; then saved a third time with nothing in between.  Random longer
+    histories of 1..3 objects."""
+    sc = []
+    for li, label in enumerate(EDIT_LABELS):
+        for ri, (first, where, second) in enumerate(RESAVE):
+            if quick and (li + ri) % 2 and label not in ("none", "load_same_count", "load_more", "set_fraction", "inplace_fraction",
+                                                          "lists_same_count"):
+                continue
+            h = History(rng)
+            pf1, pf2, pf3 = distinct_postfixes(rng, 3)
+            M = mk(rng, n=int(rng.integers(1, 9)), k=int(rng.integers(1, 6)))
+            M["route"] = "init" if (li + ri) % 2 else "assign"
+            h.new("X", M)
+            f1 = "h.npz"
+            p1 = None if first == "whole" else pf1
+            h.save("X", f1, p1)
+            h.check(f1, p1)
+            X = do_edit(h, "X", label)
+            f2 = f1 if where == "same file" else "h2.npz"
+            p2 = None if second == "whole" else (p1 if second == "same postfix" else pf2)
+            h.save(X, f2, p2)
+            h.check_all()
+            h.edit(X, "none", kind="none")              # and once more, untouched: the two archives must hold the same
+            h.save(X, f2, pf3)
+            h.check(f2, p2)
+            h.check(f2, pf3)
+            sc.append({"family": family, "history": label, "ops": h.ops})
+    for i in range(24 if quick else 250):
+        h = History(rng)
+        names = ["X", "Y", "Z"][:1 + i % 3]
+        pool = distinct_postfixes(rng, 3)
+        for nm in names:
+            h.new(nm, mk(rng))
+        for step in range(int(rng.integers(3, 9))):
+            j = int(rng.integers(0, len(names)))
+            if step and rng.random() < 0.75:
+                lab = EDIT_LABELS[int(rng.integers(0, len(EDIT_LABELS)))]
+                if lab != "corrupt_then_repaired":
+                    names[j] = do_edit(h, names[j], lab)
+            h.save(names[j], ["h.npz", "h2.npz"][int(rng.integers(0, 2))], None if rng.random() < 0.3 else pool[int(rng.integers(0, 3))])
+            if rng.random() < 0.5:
+                h.check_all()
+        h.check_all()
+        sc.append({"family": family, "history": "random", "ops": h.ops})
+    return sc
+
+
+# --------------------------------------------------------------------------
 # scenarios
 # --------------------------------------------------------------------------
 def S(file, pf, M):
@@ -439,6 +739,7 @@ def gen_cases(chk, tier):
         ops += [F("big.npz", pfs[j]) for j in rng.permutation(8)] + [L("big.npz", pfs[j], 7) for j in rng.permutation(8)]
         sc.append({"family": "large", "ops": ops})
     sc += layout_cases(rng, quick)
+    sc += object_cases(rng, quick)
     return sc
 
 
@@ -502,8 +803,8 @@ def enc_pf(p):
 
 def encode(sc):
     """tokens for Entry_npz.run_npz and the table aid -> saved array"""
-    arrays, toks = [], [1, len(sc["ops"])]          # sets_n = 1: the code as it is
-    for o in sc["ops"]:
+    arrays, toks = [], [1, len(visible(sc))]          # sets_n = 1: the code as it is
+    for o in visible(sc):
         if o["op"] == "save":
             M = o["mineral"]
             toks += [0] + enc_str(o["file"]) + enc_pf(o["postfix"])
@@ -551,7 +852,7 @@ class Reader:
 
 def decode(sc, vals, arrays):
     rd, res = Reader(vals), []
-    for o in sc["ops"]:
+    for o in visible(sc):
         if rd.next() == 1:
             res.append(("ERR", rd.next()))
             continue
@@ -579,6 +880,21 @@ def dir_state(d):
     return st
 
 
+STAMP = 10 ** 9          # mtime (ns) given to every file before a save: a file with another mtime afterwards was written
+
+
+def stamp(d):
+    for root, _, files in os.walk(d):
+        for fn in files:
+            os.utime(os.path.join(root, fn), ns=(STAMP, STAMP))
+
+
+def rewritten(d):
+    """files written since `stamp` (also when the bytes written are the bytes that were there: an object saved twice)"""
+    return [os.path.relpath(os.path.join(root, fn), d) for root, _, files in os.walk(d) for fn in files
+            if os.stat(os.path.join(root, fn)).st_mtime_ns != STAMP]
+
+
 def infos(path):
     with zipfile.ZipFile(path) as z:
         return [(i.filename, i.CRC, i.file_size) for i in z.infolist()]
@@ -591,16 +907,27 @@ def exc(e):
 def run_impl(pyd, sc, d):
     """Execute the operations on real files in directory d.  Returns the per-op results and
     a list of oracle-hypothesis / no-write failures."""
-    res, resid = [], []
+    res, resid, objs = [], [], {}
     os.makedirs(d, exist_ok=True)
     for o in sc["ops"]:
+        if o["op"] == "new":                            # object histories: a live object of this history
+            objs[o["obj"]] = build(pyd, clone_M(o["mineral"]))
+            continue
+        if o["op"] == "edit":
+            objs[o["obj"]] = apply_edit(objs[o["obj"]], o, pyd)
+            continue
         path = os.path.join(d, o["file"])
         before = dir_state(d)
         if o["op"] == "save":
             M = o["mineral"]
             old_infos = infos(path) if (o["postfix"] is not None and os.path.exists(path)) else []
+            stamp(d)
             try:
-                m = build(pyd, M)
+                if "obj" in o:
+                    m = objs[o["obj"]]
+                    M = live_state(m)                   # what the object holds now is what has to be written
+                else:
+                    m = build(pyd, M)
                 with warnings.catch_warnings():
                     warnings.simplefilter("ignore")
                     # the model's save is a pure function of the mineral: the stored snapshots are the same after the call
@@ -615,7 +942,7 @@ def run_impl(pyd, sc, d):
                 res.append(exc(e) + (after == before,))
                 continue
             after = dir_state(d)
-            changed = sorted(k for k in after if before.get(k) != after[k]) + sorted(k for k in before if k not in after)
+            changed = sorted(set(k for k in after if before.get(k) != after[k]) | set(rewritten(d))) + sorted(k for k in before if k not in after)
             names = None
             if len(changed) == 1:
                 tp = os.path.join(d, changed[0])
@@ -648,14 +975,18 @@ def run_impl(pyd, sc, d):
         else:
             try:
                 if o["op"] == "load":
-                    m = target(pyd, o["target_n"])
+                    m = objs[o["obj"]] if "obj" in o else target(pyd, o["target_n"])
                     m.load(path, postfix=o["postfix"])
                 else:
                     m = pyd.Mineral.from_file(path, postfix=o["postfix"])
+                    if "obj" in o:
+                        objs[o["obj"]] = m
+                # (copies when the object lives on: it may be edited in place later in the history)
                 res.append(("OK", int(m.phase), int(m.fabric), int(m.regime), int(m.n_grains),
-                            [np.asarray(a) for a in m.fractions], [np.asarray(a) for a in m.orientations],
+                            [np.array(a) if "obj" in o else np.asarray(a) for a in m.fractions],
+                            [np.array(a) if "obj" in o else np.asarray(a) for a in m.orientations],
                             type(m.phase).__name__))
-                if sc.get("probe"):
+                if sc.get("probe") and "obj" not in o:
                     # what a loader returns belongs to the caller: overwritten in place, then loaded again
                     if o["op"] == "load":
                         def again(p, q, tn=o["target_n"]):
@@ -694,8 +1025,8 @@ def arrays_match(impl_list, model_list):
 
 def compare_one(sc, ires, mres):
     """first disagreement between implementation and model on one scenario, or None"""
-    for k, (o, a, b) in enumerate(zip(sc["ops"], ires, mres)):
-        tag = f"op {k} {o['op']}({o['file']!r}, postfix={o['postfix']!r})"
+    for k, (o, a, b) in enumerate(zip(visible(sc), ires, mres)):
+        tag = f"op {k} {o['op']}({o['file']!r}, postfix={o['postfix']!r})" + (f" of object {o['obj']}" if "obj" in o else "")
         if a[0] == "ERR" or b[0] == "ERR":
             if not (a[0] == "ERR" and b[0] == "ERR" and a[1] == b[1]):
                 ia = f"raises {a[2]}" if a[0] == "ERR" else "succeeds"
@@ -742,19 +1073,42 @@ def is_valid(M):
 
 
 def oracle(pyd, sc, d):
-    fails, expect = [], {}
+    fails, expect, objs = [], {}, {}
     os.makedirs(d, exist_ok=True)
     for k, o in enumerate(sc["ops"]):
+        if o["op"] in ("new", "edit") or "obj" in o:
+            # object histories.  The requirement is read off the LIVE object: what it holds when save is called is what both
+            # loaders have to return.  (A history that cannot be carried out -- an operation of it was removed while
+            # shrinking -- proves nothing: it ends here.)
+            try:
+                if o["op"] == "new":
+                    objs[o["obj"]] = build(pyd, clone_M(o["mineral"]))
+                    continue
+                if o["obj"] not in objs and o["op"] != "from_file":
+                    return fails
+                if o["op"] == "edit":
+                    objs[o["obj"]] = apply_edit(objs[o["obj"]], o, pyd)
+                    continue
+            except Exception:  # noqa: BLE001
+                return fails
         path = os.path.join(d, o["file"])
-        tag = f"op {k} {o['op']}({o['file']!r}, postfix={o['postfix']!r})"
+        tag = f"op {k} {o['op']}({o['file']!r}, postfix={o['postfix']!r})" + (f" of object {o['obj']}" if "obj" in o else "")
         if o["op"] == "save":
-            M = o["mineral"]
-            saved = freeze(M)                 # the stored snapshots as they are when save is called
+            if "obj" in o:
+                mobj = objs[o["obj"]]
+                try:
+                    M = saved = live_state(mobj)  # a copy of the snapshots the object holds just before this save
+                except Exception:  # noqa: BLE001
+                    return fails
+            else:
+                M = o["mineral"]
+                saved = freeze(M)                 # the stored snapshots as they are when save is called
+                mobj = None
             before = dir_state(d)
             try:
                 with warnings.catch_warnings():
                     warnings.simplefilter("ignore")
-                    build(pyd, M).save(path, postfix=o["postfix"])
+                    (mobj if mobj is not None else build(pyd, M)).save(path, postfix=o["postfix"])
                 err = None
             except Exception as e:  # noqa: BLE001
                 err = e
@@ -774,10 +1128,12 @@ def oracle(pyd, sc, d):
             continue
         try:
             if o["op"] == "load":
-                m = target(pyd, o["target_n"])
+                m = objs[o["obj"]] if "obj" in o else target(pyd, o["target_n"])
                 m.load(path, postfix=o["postfix"])
             else:
                 m = pyd.Mineral.from_file(path, postfix=o["postfix"])
+                if "obj" in o:
+                    objs[o["obj"]] = m
             err = None
         except Exception as e:  # noqa: BLE001
             err = e
@@ -798,7 +1154,7 @@ def oracle(pyd, sc, d):
         for nm, x, y in (("fractions", m.fractions, M["fractions"]), ("orientations", m.orientations, M["orientations"])):
             if len(x) != len(y) or not all(same_bits(a, b) for a, b in zip(x, y)):
                 fails.append(f"{tag}: {nm} are not restored bit-for-bit")
-        for a in list(m.fractions) + list(m.orientations):      # the caller owns what was returned: every later load
+        for a in ([] if "obj" in o else list(m.fractions) + list(m.orientations)):      # the caller owns what was returned: every later load
             if isinstance(a, np.ndarray) and a.flags.writeable and a.dtype.kind == "f":     # must restore the saved values all the same
                 a[...] = -7.0
     return fails
@@ -825,6 +1181,7 @@ def oracle_sweep(chk):
     for name in ("m.npy", "m", "m.npz.bak"):
         sc.append({"family": "oracle", "ops": [S(name, "p", mk(rng)), F(name, "p"), L(name, "p", 2), F(name, None)]})
     sc += layout_cases(rng, True, file="o.npz", family="oracle")
+    sc += object_cases(rng, True, family="oracle")
     return sc
 
 
@@ -866,43 +1223,112 @@ def search(chk, pyd, base, extra=()):
 # --------------------------------------------------------------------------
 # JSON encoding of scenarios (replay files)
 # --------------------------------------------------------------------------
+def enc_arr(a):
+    return {"shape": list(a.shape), "float64_hex": np.ascontiguousarray(a).tobytes().hex(), "layout": describe(a)}
+
+
+def dec_arr(a):
+    return rebuild(np.frombuffer(bytes.fromhex(a["float64_hex"]), dtype=np.float64).reshape(a["shape"]).copy(), a.get("layout"))
+
+
 def enc_M(M):
     return {k: M[k] for k in ("phase", "fabric", "regime", "n_grains")} | {
-        nm: [{"shape": list(a.shape), "float64_hex": np.ascontiguousarray(a).tobytes().hex(), "layout": describe(a)} for a in M[nm]]
-        for nm in ("fractions", "orientations")} | {"route": M.get("route", "assign")}
+        nm: [enc_arr(a) for a in M[nm]] for nm in ("fractions", "orientations")} | {"route": M.get("route", "assign")}
 
 
 def dec_M(d):
     return {k: d[k] for k in ("phase", "fabric", "regime", "n_grains")} | {
-        nm: [rebuild(np.frombuffer(bytes.fromhex(a["float64_hex"]), dtype=np.float64).reshape(a["shape"]).copy(), a.get("layout"))
-             for a in d[nm]]
-        for nm in ("fractions", "orientations")} | {"route": d.get("route", "assign")}
+        nm: [dec_arr(a) for a in d[nm]] for nm in ("fractions", "orientations")} | {"route": d.get("route", "assign")}
+
+
+def _code_op(o, arr, mineral):
+    """one operation to / from JSON.  The save of a live object carries no state of its own (the predicted state is an input of
+    the model only; the oracle reads the object)."""
+    o = dict(o)
+    if "mineral" in o:
+        if o["op"] == "save" and "obj" in o:
+            del o["mineral"]
+        else:
+            o["mineral"] = mineral(o["mineral"])
+    if o["op"] == "edit":
+        if "items" in o:
+            o["items"] = [dict(it, value=arr(it["value"])) for it in o["items"]]
+        for nm in ("fractions", "orientations"):
+            if nm in o:
+                o[nm] = [arr(a) for a in o[nm]]
+    return o
 
 
 def enc_sc(sc):
-    return {"family": sc.get("family", ""),
-            "ops": [dict(o, mineral=enc_M(o["mineral"])) if o["op"] == "save" else o for o in sc["ops"]]}
+    return {"family": sc.get("family", ""), "ops": [_code_op(o, enc_arr, enc_M) for o in sc["ops"]]}
 
 
 def dec_sc(d):
-    return {"family": d.get("family", ""),
-            "ops": [dict(o, mineral=dec_M(o["mineral"])) if o["op"] == "save" else o for o in d["ops"]]}
+    return {"family": d.get("family", ""), "ops": [_code_op(o, dec_arr, dec_M) for o in d["ops"]]}
 
 
 def brief(sc):
     out = []
     for o in sc["ops"]:
-        if o["op"] == "save":
+        who = f"{o['obj']}." if "obj" in o else ""
+        if o["op"] == "new":
+            M = o["mineral"]
+            out.append(f"{o['obj']} = Mineral(n={M['n_grains']},snapshots={len(M['fractions'])}/{len(M['orientations'])})")
+        elif o["op"] == "edit":
+            what = {"set": lambda: " ".join(f"{it['field']}[{it['index']}]=..." for it in o["items"][:4]),
+                    "inplace": lambda: " ".join(f"{it['field']}[{it['index']}]" + ("[...]" if it.get("grain") is None else f"[{it['grain']}]")
+                                                + "=..." for it in o["items"][:4]),
+                    "lists": lambda: f"fractions=[{len(o.get('fractions', []))} arrays] orientations=[{len(o.get('orientations', []))} arrays]"
+                                     + (f" n_grains={o['n_grains']}" if o.get("n_grains") is not None else ""),
+                    "append": lambda: f"{len(o.get('fractions', []))} fractions, {len(o.get('orientations', []))} orientations",
+                    "truncate": lambda: f"last {o['count']}", "clone": lambda: o.get("via", "pickle"),
+                    "meta": lambda: ",".join(f"{nm}={o[nm]}" for nm in ("phase", "fabric", "regime") if nm in o)}.get(o["kind"], lambda: "")()
+            out.append(f"{who}edit:{o['kind']}({what})")
+        elif o["op"] == "save" and "mineral" not in o:
+            out.append(f"{who}save({o['file']!r},{o['postfix']!r})")
+        elif o["op"] == "save":
             M = o["mineral"]
             lay = [f"{nm}[{i}]:{layout_class(a)}" for nm in ("fractions", "orientations") for i, a in enumerate(M[nm])
                    if layout_class(a) not in ("C", "C+F", "trivial")]
-            out.append(f"save({o['file']!r},{o['postfix']!r},n={M['n_grains']},snapshots={len(M['fractions'])}/{len(M['orientations'])}"
+            out.append(f"{who}save({o['file']!r},{o['postfix']!r},n={M['n_grains']},snapshots={len(M['fractions'])}/{len(M['orientations'])}"
                        + (",layouts=" + " ".join(lay[:6]) if lay else "") + ")")
         elif o["op"] == "load":
-            out.append(f"load({o['file']!r},{o['postfix']!r},into n={o['target_n']})")
+            out.append(f"{who}load({o['file']!r},{o['postfix']!r}" + ("" if who else f",into n={o['target_n']}") + ")")
         else:
-            out.append(f"from_file({o['file']!r},{o['postfix']!r})")
+            out.append((f"{o['obj']} = " if who else "") + f"from_file({o['file']!r},{o['postfix']!r})")
     return out
+
+
+def object_histograms(sc, hist):
+    """family `object`: per pair of consecutive saves of ONE object, what the caller did to it in between (labels of the
+    edits / loads), where the second save went, how the number of snapshots changed"""
+    def bump(name, key):
+        hist[name][key] = hist[name].get(key, 0) + 1
+    bump("object_history", sc["history"])
+    last, since, count = {}, {}, {}
+    for o in sc["ops"]:
+        x = o.get("obj")
+        if x is None:
+            continue
+        if o["op"] == "from_file" and x.rstrip("'") in last:         # the object goes on as what a loader made of it
+            last[x], since[x], count[x] = last[x.rstrip("'")], since.get(x.rstrip("'"), []) + ["from_file"], count.get(x.rstrip("'"), 0)
+        elif o["op"] in ("edit", "load") and o.get("label") not in (None, "none"):
+            since.setdefault(x, []).append(o["label"])
+        elif o["op"] == "save":
+            k = len(o["mineral"]["fractions"])
+            count[x] = count.get(x, 0) + 1
+            if x in last:
+                f0, p0, k0 = last[x]
+                for lab in (since.get(x) or ["nothing"]):
+                    bump("object_resave_change_between", lab)
+                bump("object_resave_target", ("same file" if f0 == o["file"] else "other file") + ": "
+                     + ("whole" if p0 is None else "postfix") + " -> "
+                     + ("whole" if o["postfix"] is None else "same postfix" if o["postfix"] == p0 and f0 == o["file"] else "postfix"))
+                bump("object_resave_snapshot_count", "same" if k == k0 else "grown" if k > k0 else "shrunk")
+            if is_valid(o["mineral"]):
+                last[x], since[x] = (o["file"], o["postfix"], k), []
+    for x, c in count.items():
+        bump("object_saves_per_object", str(c))
 
 
 # --------------------------------------------------------------------------
@@ -930,13 +1356,24 @@ def run(chk):
                        "through fractions_init / orientations_init or assigned, followed by from_file and load; archives of 1..8 minerals with an "
                        "independent layout per array; 8 shape faults in every layout (must raise without writing). Every save runs under "
                        "argguard.guarded (the mineral's snapshots are unchanged by the call), the loads of family 8 under argguard.fresh_result_probe (result "
-                       "overwritten by the caller, loaded again: same values). The model must predict every outcome exactly (file written, zip member list, exception class, returned mineral "
+                       "overwritten by the caller, loaded again: same values); (9) OBJECT HISTORIES: the operations act on named LIVE Mineral objects -- "
+                       "one object saved, then its stored history changed by the caller (27 labelled changes: nothing; load INTO the object of an archive with "
+                       "the same / a larger / a smaller number of snapshots, another grain count, a postfix entry, its own earlier save; fractions[i] = / "
+                       "orientations[i] = one / every snapshot, also in another memory layout; in-place edit of a stored array, of one grain, of every snapshot; "
+                       "both lists reassigned with the same / more / fewer snapshots / another grain count; snapshots appended, appended + an earlier one "
+                       "replaced, dropped, dropped + appended; metadata changed; the object deep-copied / pickled, then edited; the object a loader made of an "
+                       "earlier entry edited; made corrupt (refused save) and repaired) x second save to the same / another file, whole file / postfix / the "
+                       "same postfix, then saved a third time untouched; every entry that must exist read back through both loaders after each save; random "
+                       "histories of 1..3 objects x 3..8 saves. The model is given, for the save of an object, the state the property requires the object to be "
+                       "in (loads restore what was saved, edits do what they say). The model must predict every outcome exactly (file written, zip member list, exception class, returned mineral "
                        "bit-for-bit). distinct = distinct token encoding of the history incl. array ids and shapes + payload hash; non-trivial = at least one load returned "
                        "arrays or at least one operation raised")
     hist = chk.cov.setdefault("histogram", {"family": {}, "errors_impl": {}, "minerals_per_archive": {}, "n_grains": {}, "snapshots": {},
                                             "meta_type_after_load": {}, "layout_requested": {}, "layout_of_saved_arrays": {},
                                             "layout_of_first_orientation_snapshot": {}, "layout_save_path": {}, "construction_route": {},
-                                            "result_probes": {}})
+                                            "result_probes": {}, "object_history": {}, "object_resave_change_between": {},
+                                            "object_resave_target": {}, "object_resave_snapshot_count": {},
+                                            "object_saves_per_object": {}})
     base = os.path.join(common.BUILD, f"tmp-{os.getpid()}")
     shutil.rmtree(base, ignore_errors=True)
     os.makedirs(base)
@@ -972,10 +1409,12 @@ def run(chk):
                         hist["layout_save_path"][c] = hist["layout_save_path"].get(c, 0) + 1
                     c = o["mineral"].get("route", "assign")
                     hist["construction_route"][c] = hist["construction_route"].get(c, 0) + 1
+                if "history" in sc:
+                    object_histograms(sc, hist)
                 if "layout" in sc:
                     hist["layout_requested"][sc["layout"]] = hist["layout_requested"].get(sc["layout"], 0) + 1
                 if sc.get("probe"):
-                    c = sum(1 for o, r in zip(sc["ops"], ires) if o["op"] != "save" and r[0] == "OK")
+                    c = sum(1 for o, r in zip(visible(sc), ires) if o["op"] != "save" and r[0] == "OK")
                     hist["result_probes"]["loads repeated after the caller overwrote the result"] = hist["result_probes"].get(
                         "loads repeated after the caller overwrote the result", 0) + c
                 for r in ires:
